@@ -374,7 +374,7 @@ Oracle: reference model leftmost-first/-longest find for find_in/find and the mo
 Deterministic sweep (enumerated): 4 fixed colliding families x mask length 1..4 x 5 variants x 2 kinds x every haystack length 0..72 x every pattern x every plant offset. \
 Non-trivial = >= 2 patterns, a match exists, the intended algorithm ran (span length >= minimum_len for Teddy) and (the match starts >= 16 bytes into the span or two patterns collide in their low-nybble fingerprint). Distinct = distinct case fingerprint.",
     assumptions: &["x86-64 with SSSE3 and AVX2 (all 12 Teddy variants constructible); aarch64 NEON not exercised", "reference model"],
-    cases_quick: 240_000,
+    cases_quick: 600_000,
     cases_thorough: 5_000_000,
     strategy: c06_strategy,
     check: c06_check,
@@ -786,7 +786,7 @@ fn c15_check_spawn(case: &Case, _ctx: &mut Ctx) -> Result<(), String> {
 
 fn c15_extra(tier: Tier, seed: u64, total: &mut Ctx) -> Result<bool, Violation> {
     let cases: u64 = match tier {
-        Tier::Quick => 160_000,
+        Tier::Quick => 400_000,
         Tier::Thorough => 3_000_000,
     };
     let scale: f64 = std::env::var("VERIF_SCALE").ok().and_then(|s| s.parse().ok()).unwrap_or(1.0);
